@@ -411,3 +411,104 @@ func tailStr(s string, n int) string {
 	}
 	return s
 }
+
+// ---------------------------------------------------------------------------------------------
+// Whole-program differential runs (generated programs).
+
+// Outcome of building and running one program with one toolchain configuration.
+type Outcome struct {
+	BuildOK  bool
+	BuildOut string
+	Skip     bool // llgo died inside libLLVM-14: not a result
+	Out      string
+	Code     int
+	Timeout  bool
+}
+
+// RunGc builds the module in dir with the reference toolchain and runs it.
+func (t *Toolchain) RunGc(dir string, stdin []byte, env ...string) Outcome {
+	bin := filepath.Join(t.scratch("gcbin"), "prog")
+	defer os.RemoveAll(filepath.Dir(bin))
+	b := t.BuildGc(dir, bin)
+	if !b.OK {
+		return Outcome{BuildOut: b.Output}
+	}
+	return runOutcome(bin, stdin, env)
+}
+
+// RunLlgo builds the module in dir with the llgo under test and runs it.
+func (t *Toolchain) RunLlgo(dir string, cfg Config, stdin []byte, env ...string) Outcome {
+	bin := filepath.Join(t.scratch("llbin"), "prog")
+	defer os.RemoveAll(filepath.Dir(bin))
+	b := t.BuildLlgo(dir, bin, cfg)
+	if !b.OK {
+		return Outcome{BuildOut: b.Output, Skip: b.ToolchainSkip}
+	}
+	return runOutcome(bin, stdin, env)
+}
+
+func runOutcome(bin string, stdin []byte, env []string) Outcome {
+	cmd := exec.Command(bin)
+	cmd.Env = append(os.Environ(), env...)
+	if stdin != nil {
+		cmd.Stdin = bytes.NewReader(stdin)
+	}
+	var buf bytes.Buffer
+	cmd.Stdout, cmd.Stderr = &buf, &buf
+	cmd.SysProcAttr = &syscall.SysProcAttr{Setpgid: true}
+	o := Outcome{BuildOK: true}
+	if err := cmd.Start(); err != nil {
+		o.Out, o.Code = err.Error(), 127
+		return o
+	}
+	done := make(chan error, 1)
+	go func() { done <- cmd.Wait() }()
+	var err error
+	select {
+	case err = <-done:
+	case <-time.After(30 * time.Second):
+		o.Timeout = true
+		syscall.Kill(-cmd.Process.Pid, syscall.SIGKILL)
+		err = <-done
+	}
+	if err != nil {
+		o.Code = 1
+		var ee *exec.ExitError
+		if errors.As(err, &ee) {
+			o.Code = ee.ExitCode()
+			if ws, ok := ee.Sys().(syscall.WaitStatus); ok && ws.Signaled() {
+				o.Code = 128 + int(ws.Signal())
+			}
+		}
+	}
+	o.Out = buf.String()
+	return o
+}
+
+// SplitUnits cuts a program's output into per-unit blocks: lines starting with "#<n> " or "#<n>:"
+// belong to unit n; anything else goes to unit -1.
+func SplitUnits(out string) map[int][]string {
+	m := map[int][]string{}
+	for _, ln := range strings.Split(out, "\n") {
+		if ln == "" {
+			continue
+		}
+		u := -1
+		if ln[0] == '#' {
+			n, i := 0, 1
+			if i < len(ln) && ln[i] == ' ' { // println("#", n, …) prints "# n …"
+				i++
+			}
+			start := i
+			for i < len(ln) && ln[i] >= '0' && ln[i] <= '9' {
+				n = n*10 + int(ln[i]-'0')
+				i++
+			}
+			if i > start {
+				u = n
+			}
+		}
+		m[u] = append(m[u], ln)
+	}
+	return m
+}
